@@ -363,14 +363,35 @@ func (cp *CollectingProcess) decodeDataSet(dataBuffer *bytes.Buffer, obsDomainID
 		return nil, err
 	}
 
-	for dataBuffer.Len() > 0 {
+	// minRecordLen is the smallest number of bytes a data record can occupy for this
+	// template (a variable-length field takes at least its one-byte length prefix).
+	minRecordLen := 0
+	for _, ie := range template {
+		if ie.Len == entities.VariableLength {
+			minRecordLen++
+		} else {
+			minRecordLen += int(ie.Len)
+		}
+	}
+	if minRecordLen == 0 {
+		return nil, fmt.Errorf("template %d with obsDomainID %d defines empty data records", templateID, obsDomainID)
+	}
+
+	// Remaining bytes which cannot hold one more record are padding (RFC 7011, section 3.3.1).
+	for dataBuffer.Len() >= minRecordLen {
 		elements := make([]entities.InfoElementWithValue, 0, len(template)+cp.numExtraElements)
 		for _, ie := range template {
 			var length int
 			if ie.Len == entities.VariableLength { // string / octet array
-				length = getFieldLength(dataBuffer)
+				length, err = getFieldLength(dataBuffer)
+				if err != nil {
+					return nil, err
+				}
 			} else {
 				length = int(ie.Len)
+			}
+			if dataBuffer.Len() < length {
+				return nil, fmt.Errorf("data record is truncated: field %q needs %d bytes, %d available", ie.Name, length, dataBuffer.Len())
 			}
 			element, err := entities.DecodeAndCreateInfoElementWithValue(ie, dataBuffer.Next(length))
 			if err != nil {
@@ -505,12 +526,17 @@ func getMessageLength(reader *bufio.Reader) (int, error) {
 
 // getFieldLength returns string field length for data record
 // (encoding reference: https://tools.ietf.org/html/rfc7011#appendix-A.5)
-func getFieldLength(dataBuffer *bytes.Buffer) int {
-	oneByte, _ := dataBuffer.ReadByte()
+func getFieldLength(dataBuffer *bytes.Buffer) (int, error) {
+	oneByte, err := dataBuffer.ReadByte()
+	if err != nil {
+		return 0, fmt.Errorf("cannot read length of variable-length field: %w", err)
+	}
 	if oneByte < 255 { // string length is less than 255
-		return int(oneByte)
+		return int(oneByte), nil
 	}
 	var lengthTwoBytes uint16
-	util.Decode(dataBuffer, binary.BigEndian, &lengthTwoBytes)
-	return int(lengthTwoBytes)
+	if err := util.Decode(dataBuffer, binary.BigEndian, &lengthTwoBytes); err != nil {
+		return 0, fmt.Errorf("cannot read length of variable-length field: %w", err)
+	}
+	return int(lengthTwoBytes), nil
 }
